@@ -56,6 +56,13 @@ claim("C20", "fault_enumeration",
       "Model FS semantics (write buffers in user space, flush/close durable, rename atomic, open('w') truncates) are trusted; zip/PDF writers and the HTTP client are stubs emitting m chunks; no power-loss/fsync reasoning.",
       "symbolic fault enumeration (CrossHair/z3) over a model file system, real-process replay", "§4 C20")
 
+claim("C19", "model_checking",
+      "Bounded model checking by symbolic execution of the real do_render_status bound in-process to a real queue: every combination of 10 stages of the requested writer's render job, "
+      "10 stages of the makezip job, 4 stages of another writer's render job, 5 writers, symbolic result size and error/no-error finishes, each stage reached through real rpc_* calls; "
+      "the reported state/error/status/url is compared with the history. Content-Disposition: file names of <= 2 (quick) / 3 (thorough) characters over one representative per NFKD->ASCII class.",
+      "rpcclient.ServerProxy replaced by an in-process call with a deep copy as transport; info/url tokens are fixed (only identity matters); an error of '' counts as no error; HTTP layer outside.",
+      "bounded model checking via SMT-backed symbolic execution (CrossHair/z3) over job-stage combinations", "§4 C19")
+
 NA["C02"] = "structure law over the C++ scanner + 20 regex-driven passes: symbolic document shapes degenerate to enumerating concrete documents, no solver-decided bound of interest (DESIGN §5)"
 NA["C08"] = "reportlab / odfpy / pdftk do the essential work (C code, floats, external processes); every input realizes immediately, nothing for a solver to decide (DESIGN §5)"
 NA["C09"] = "protection is done by backtracking regexes in CPython's C re engine (named back-reference, look-behind, lazy quantifiers): unsupported by CrossHair's regex model and by z3's RegLan; a hand-written model would not be the code (DESIGN §5)"
